@@ -53,6 +53,25 @@ CHECKS.update({
           "DESIGN.md section 5, C08"),
 })
 
+CHECKS.update({
+ "C09": E("value oracle (reference composition base*chain*tool in plain matrices for forward, link poses and every inverse answer) plus boundary spy: exhaustive delegation matrix 3 wrappers x 8 methods and deeper nestings over a SpyKinematics event log; LinearAxis/Gantry via hook constructors",
+          "Exploration: 8e4 / 4e6 value cases over stacks of depth 1..3 in any order, 4e4 / 1e6 delegation cases (8 methods each), 2e4 / 5e5 LinearAxis/Gantry cases.",
+          "Trusted base: refmodel matrices, SpyKinematics (forwards calls unchanged). 5-DOF variants judged only with axial tools, as the statement presupposes.",
+          "DESIGN.md section 5, C09"),
+ "C15": E("runtime oracle: Jacobian reconstructed through torques_from_vector(e_k) and compared with the geometric Jacobian of the reference chain (x base, tool lever arm, parallelogram coupling matrix); velocity/torque identities; harness-side SVD for conditioning",
+          "Exploration: 6e4 / 3e6 robot x stack x q x epsilon cases, 36 matrix entries each, incl. joint vectors within the differencing step of a joint limit.",
+          "Trusted base: refmodel::geometric_jacobian; tolerance 5*eps*(1+reach)+4e-15*(1+reach)/eps.",
+          "DESIGN.md section 5, C15"),
+ "C16": E("value oracle (reference chain at the coupled joint vector, sequential application for stacked couplings, every inverse answer mapped back) plus SpyKinematics delegation matrix for Parallelogram",
+          "Exploration: 9e4 / 4e6 value cases (all 30 driven/coupled pairs round-robin, chained couplings, nesting with Tool/Base) and 3e4 / 6e5 delegation cases.",
+          "Trusted base: refmodel chain, reference stack composition.",
+          "DESIGN.md section 5, C16"),
+ "C17": E("runtime oracle on Frame::frame / translation / forward_transformed: exact rigid images, floating-point and exactly collinear triples, distance perturbations around the 5 mm tolerance; error types and flags inspected",
+          "Exploration: 1.5e5 / 6e6 rigid, 6e4 / 2e6 collinear, 6e4 / 2e6 congruence, 4e4 / 2e6 forward_transformed cases.",
+          "Trusted base: refmodel matrices. sin(angle) in [1e-12,1e-6] is a grey zone where either outcome is accepted.",
+          "DESIGN.md section 5, C17"),
+})
+
 def main():
     props = [json.loads(l) for l in open('/verif/properties.jsonl')]
     hooks_commits = subprocess.run(['git','-C','/repo','log','--format=%H %s'],capture_output=True,text=True).stdout.splitlines()
